@@ -160,4 +160,18 @@ var table = []Control{
 	{Name: "glob4-order-dependent-range", Rule: "GLOB-4", File: fFsm, Old: "\tfor con, vs := range containers {\n", New: "\tvar last *container.Container\n\tfor con, vs := range containers {\n\t\tif last != nil {\n\t\t\tlast.ValueSetFromEnv = true\n\t\t}\n\t\tlast = con\n"},
 	{Name: "glob5-unstable-priority", Rule: "GLOB-5", File: fArg, Old: "func (*arg) Priority() int {\n\treturn 8", New: "func (a *arg) Priority() int {\n\treturn 8 + len(a.arg.Name)"},
 	{Name: "glob6-panicking-assert", Rule: "GLOB-6", File: fUtils, Old: "\tif dv, ok := v.(DefaultValued); ok {\n\t\tif dv.IsDefault() {\n\t\t\treturn \"\"\n\t\t}\n\t}", New: "\tif v.(DefaultValued).IsDefault() {\n\t\treturn \"\"\n\t}"},
+	// ---- obligations added after the second (held-out) seeding round
+	{Name: "fsm1-continue-after-removal", Rule: "FSM-1", File: fFsm,
+		Old: "\t\t\tif expanded[next] {\n\t\t\t\t// already inlined into s: doing it again would loop forever on cyclic shortcuts\n\t\t\t\treturn true\n\t\t\t}",
+		New: "\t\t\tif expanded[next] {\n\t\t\t\tcontinue\n\t\t\t}"},
+	{Name: "lex4-glued-dash-unchecked", Rule: "LEX-4", File: fLexer,
+		Old: "\t\t\t\tif pos < eof && usage[pos] == '-' {\n\t\t\t\t\treturn nil, err(\"Invalid syntax\")\n\t\t\t\t}\n", New: ""},
+	{Name: "mat7-unjustified-skip", Rule: "MAT-7", File: fOption,
+		Old: "\trem := arg[1:]\n\n\tremIdx := 0\n", New: "\trem := arg[1:]\n\tif len(rem) > 3 {\n\t\treturn false, 1, args\n\t}\n\n\tremIdx := 0\n"},
+	{Name: "cmd3-help-addressee", Rule: "CMD-3", File: fCmds,
+		Old: "if helpIndex >= 0 && helpIndex < nargsLen {", New: "if helpIndex >= 0 && nargsLen == len(args) {"},
+	{Name: "val5-isdefault-trims", Rule: "VAL-5", File: fValues,
+		Old: "\treturn string(*sa) == \"\"\n", New: "\treturn len(string(*sa)) <= 1\n"},
+	{Name: "help1-visible-list-aliases", Rule: "HELP-1", File: fCmds,
+		Old: "commands := make([]*Cmd, 0, len(c.commands))", New: "commands := c.commands[:0]"},
 }
